@@ -73,6 +73,7 @@ structure DAcc where
   mismatches : Nat := 0
   monitorHits : Nat := 0
   unmodelled : Nat := 0
+  origin : String := "failed-tx"   -- how the residue of the package variable now present came about
 
 /-- the kind of an implementation error: its words without numbers, addresses and ids -/
 def errKind (s : String) : String :=
@@ -93,7 +94,7 @@ def processLine (acc : DAcc) (line : String) : IO DAcc := do
         let hist := (j.getObjValAs? Nat "hist").toOption.getD 0
         for (c, msg) in Monitors.checkState env st.st do
           IO.println s!"MONITOR hist={hist} i=genesis prop={c} {msg}"
-        return { acc with env := env, prev := some st, hist := hist }
+        return { acc with env := env, prev := some st, hist := hist, origin := "failed-tx" }
       | .error e, _ => IO.println s!"DECODE-ERROR genesis env: {e}"; return acc
       | _, .error e => IO.println s!"DECODE-ERROR genesis state: {e}"; return acc
     else
@@ -127,11 +128,12 @@ def processLine (acc : DAcc) (line : String) : IO DAcc := do
             acc := { acc with mismatches := acc.mismatches + 1 }
             IO.println s!"MISMATCH hist={acc.hist} i={i} op={k} field={f} impl={a} model={b}"
         -- monitors on the implementation's own states
-        for (c, msg) in Monitors.checkStep acc.env pre op (parseRes resS) implPost do
+        for (c, msg) in Monitors.checkStep acc.env pre op (parseRes resS) implPost acc.origin do
           acc := { acc with monitorHits := acc.monitorHits + 1 }
           IO.println s!"MONITOR hist={acc.hist} i={i} op={k} prop={c} {msg}"
         IO.println s!"STEP hist={acc.hist} i={i} op={k} res={resS} kind={errKind errS}"
-        return { acc with prev := some implPost }
+        let o := Monitors.residueOrigin pre op (parseRes resS) implPost
+        return { acc with prev := some implPost, origin := if o ≠ "" then o else acc.origin }
 
 partial def loop (h : IO.FS.Stream) (acc : DAcc) : IO DAcc := do
   let line ← h.getLine
